@@ -161,7 +161,7 @@ pub fn spec(id: &str) -> Option<PropSpec> {
         )),
         "C15" => Some(base(
             vec![cs(&CODEC, "vault", 96, 900, false)],
-            "cases = (group, data type (all 28), codec {bytes via &[u8] / Vec<u8> / &Vec<u8> / Box<[u8]>, serde_bare, serde_json, big- and little-endian for scalar types and the curve-tagged key wrapper}, specimen kind {generated, identity point, scalar 1 / r-1, each scheme variant, timestamps 0 / 2^63 / u64::MAX, share identifiers incl. 1 and 255, payload 0 B .. 64 KiB}); \
+            "cases = (group, data type (all 28), codec {bytes via &[u8] / Vec<u8> / &Vec<u8> / Box<[u8]>, serde_bare, serde_json, big- and little-endian for scalar types and the curve-tagged key wrapper}, specimen kind {generated, identity point, scalar 1 / r-1, each scheme variant, timestamps 0 / 2^63 / u64::MAX, share identifiers incl. 1 and 255, payload 0 B .. 64 KiB, limb-pattern secret keys, points k*G whose compressed coordinate begins with the modulus' leading 32-bit word or a zero word (15 scalars found by an exhaustive walk, in every point-carrying type)}); \
              every specimen is written to a vault's disk, survives a crash/restart, is reloaded, compared (bytes and PartialEq) and forwarded to a second vault in another codec; the type x group x scheme x codec table is enumerated in every run, values within a cell are seeded; non-trivial = edge specimens",
             vec!["cur-blst"],
         )),
